@@ -97,8 +97,11 @@ def consts(nn, na, maxt, steps, sess, faults, crash, leave, mcs, ral, evil="{}",
 TRACE_CFG = "SPECIFICATION TraceSpec\nINVARIANT Done\n" + consts(NN, NA, MAXT, 0, 0, 0, False, False, "{0}", "{FALSE}", bpn=256)
 
 
+MC_WORKERS = max(2, min(8, vlib.NCPU // 2))
+
+
 def exhaustive(ctx, c, what):
-    r = vlib.tlc(ctx, "Snapshot", c + "INIT Init\nNEXT Next\nINVARIANT Props\n", timeout=3000)
+    r = vlib.tlc(ctx, "Snapshot", c + "INIT Init\nNEXT Next\nINVARIANT Props\n", timeout=3000, workers=MC_WORKERS)
     if r.violated:
         raise vlib.Inconclusive("the model violates its own monitors (%s, beyond the recorded findings) -- spec error or a "
                                 "new defect class; no verdict:\n%s" % (what, r.out[-3000:]))
@@ -107,11 +110,33 @@ def exhaustive(ctx, c, what):
 
 def reachable(ctx, c, inv, what):
     """A recorded finding must be reachable in the model: the invariant that denies it must FAIL."""
-    r = vlib.tlc(ctx, "Snapshot", c + "INIT Init\nNEXT Next\nINVARIANT %s\n" % inv, timeout=1200)
+    r = vlib.tlc(ctx, "Snapshot", c + "INIT Init\nNEXT Next\nINVARIANT %s\n" % inv, timeout=1200, workers=2)
     if not r.violated:
         ctx.log("finding %s is NOT reachable in the model (fixed in the source model? waiver would be vacuous)" % what)
         return False
     return True
+
+
+class Background:
+    """The exhaustive model check runs while schedules are generated and executed."""
+
+    def __init__(self, ctx, fn):
+        self.res, self.err = None, None
+        sub = SubCtx(ctx, "mc")
+
+        def work():
+            try:
+                self.res = fn(sub)
+            except BaseException as e:   # re-raised in join()
+                self.err = e
+        self.t = threading.Thread(target=work)
+        self.t.start()
+
+    def join(self):
+        self.t.join()
+        if self.err is not None:
+            raise self.err
+        return self.res
 
 
 # ----------------------------------------------------------------------------------------- schedules
@@ -355,9 +380,10 @@ def variants(rng, base, sid0, thresholds, rals, classes):
 
 def run_c10(ctx, binary):
     th = ctx.thorough()
-    mc = exhaustive(ctx, consts(2, 2, 2, 6 if th else 5, 2, 0, False, False, "{0, 60, 100000}", "{FALSE}"), "C10")
-    reach = {"nl_name": reachable(ctx, consts(2, 1, 1, 4, 2, 0, False, False, "{100000}", "{FALSE}", evil="{2}"),
-                                  "NoC10rejoin", "C10 newline name")}
+    bg = Background(ctx, lambda c: (
+        exhaustive(c, consts(2, 2, 2, 6 if th else 5, 2, 0, False, False, "{0, 60, 100000}", "{FALSE}"), "C10"),
+        {"nl_name": reachable(c, consts(2, 1, 1, 4, 2, 0, False, False, "{100000}", "{FALSE}", evil="{2}"),
+                              "NoC10rejoin", "C10 newline name")}))
     num, depth = (400, 40) if th else (48, 36)
     base = [close_session(s) for s in simulate(ctx, [1, 1, 2, 3, 4, 5, 6, 7, 8, 10], num, depth)]
     rng = random.Random(ctx.seed)
@@ -380,6 +406,7 @@ def run_c10(ctx, binary):
             if not (set(ids) & flagged):
                 raise vlib.Inconclusive("history %d recovers different states under different thresholds but no C10 monitor "
                                         "fired (machinery error): %s" % (cid, finals))
+    mc, reach = bg.join()
     finish(ctx, "model_checking", mc, reach, summ, scheds, viol, seen,
            "TLC -simulate behaviours of Snapshot (member/user/query events, clock advances, ticks, time advances, "
            "shutdown+restart) executed on the real Snapshotter under minCompactSize 0/300/128K with the same concrete names; "
@@ -396,9 +423,10 @@ def run_c10(ctx, binary):
 
 def run_c11(ctx, binary):
     th = ctx.thorough()
-    mc = exhaustive(ctx, consts(2, 2, 2, 5 if th else 4, 3, 0, True, True, "{0, 60, 100000}", "{FALSE, TRUE}"), "C11")
-    reach = {"rm_window": reachable(ctx, consts(2, 1, 1, 3, 1, 0, False, False, "{0}", "{FALSE}"), "NoC11safe",
-                                    "C11 remove/rename window")}
+    bg = Background(ctx, lambda c: (
+        exhaustive(c, consts(2, 2, 2, 5 if th else 4, 3, 0, True, True, "{0, 60, 100000}", "{FALSE, TRUE}"), "C11"),
+        {"rm_window": reachable(c, consts(2, 1, 1, 3, 1, 0, False, False, "{0}", "{FALSE}"), "NoC11safe",
+                                "C11 remove/rename window")}))
     num, depth = (400, 40) if th else (64, 36)
     base = simulate(ctx, [1, 2, 3, 4, 5, 6, 7, 8, 9, 10, 11, 12], num, depth, crash=True, leave=True, sess=4)
     base = [close_session(s) for s in base]
@@ -408,6 +436,7 @@ def run_c11(ctx, binary):
                          "wide" if i % 2 else "small", i))
     summ = run_all(ctx, binary, scheds, "c11")
     viol, seen = confirm(ctx, binary, summ, {s["id"]: s for s in scheds}, "C11_")
+    mc, reach = bg.join()
     finish(ctx, "fault_enumeration", mc, reach, summ, scheds, viol, seen,
            "every operation boundary of every executed history is a crash point: the directory image captured there is replayed "
            "by a fresh real NewSnapshotter and judged by the CrashSafe monitor; histories also contain explicit crashes followed "
@@ -424,9 +453,10 @@ SUFFIX = [{"a": "adv", "d": 301}, feed(1, [[1, 1]]), feed(6, [], MAXT), feed(7, 
 
 def run_c12(ctx, binary):
     th = ctx.thorough()
-    mc = exhaustive(ctx, consts(2, 1, 1, 5 if th else 4, 2, 1, False, False, "{0, 60, 100000}", "{FALSE}"), "C12")
-    reach = {"swap_fault": reachable(ctx, consts(2, 1, 1, 3, 1, 1, False, False, "{0}", "{FALSE}"), "NoC12panic",
-                                     "C12 nil handles after a failed swap")}
+    bg = Background(ctx, lambda c: (
+        exhaustive(c, consts(2, 1, 1, 5 if th else 4, 2, 1, False, False, "{0, 60, 100000}", "{FALSE}"), "C12"),
+        {"swap_fault": reachable(c, consts(2, 1, 1, 3, 1, 1, False, False, "{0}", "{FALSE}"), "NoC12panic",
+                                 "C12 nil handles after a failed swap")}))
     num, depth = (60, 24) if th else (10, 16)
     base = simulate(ctx, [1, 2, 3, 4, 5, 6, 7, 8], num, depth, sess=1)
     rng = random.Random(ctx.seed)
@@ -454,6 +484,7 @@ def run_c12(ctx, binary):
         scheds.append(mk(1000 + n, steps, s["cfg"]["mcs"], False, s["cfg"]["cls"], s["cfg"]["tcls"], s["cfg"]["cid"]))
     summ = run_all(ctx, binary, scheds, "c12")
     viol, seen = confirm(ctx, binary, summ, {s["id"]: s for s in scheds}, "C12_")
+    mc, reach = bg.join()
     finish(ctx, "fault_enumeration", mc, reach, summ, scheds, viol, seen,
            "for each executed base history, each numbered file operation of each input is failed once (one run per injection "
            "point, child process per batch); after the faulting input the history continues, the shim clock passes the 30 s retry "
@@ -468,7 +499,8 @@ def run_c12(ctx, binary):
 
 def run_c13(ctx, binary):
     th = ctx.thorough()
-    mc = exhaustive(ctx, consts(2, 1, 2, 6 if th else 5, 3, 0, False, True, "{0, 60, 100000}", "{FALSE, TRUE}"), "C13")
+    bg = Background(ctx, lambda c: exhaustive(
+        c, consts(2, 1, 2, 6 if th else 5, 3, 0, False, True, "{0, 60, 100000}", "{FALSE, TRUE}"), "C13"))
     num, depth = (300, 36) if th else (48, 30)
     base = simulate(ctx, [1, 1, 2, 3, 4, 5, 6, 7, 8, 9, 9, 10], num, depth, leave=True, sess=3)
     rng = random.Random(ctx.seed)
@@ -488,6 +520,7 @@ def run_c13(ctx, binary):
     summ = run_all(ctx, binary, scheds, "c13")
     viol, seen = confirm(ctx, binary, summ, {s["id"]: s for s in scheds}, "C13_")
     leaves = sum(1 for s in scheds for st in s["steps"] if st["a"] == "leave")
+    mc = bg.join()
     finish(ctx, "model_checking", mc, {}, summ, scheds, viol, seen,
            "TLC -simulate behaviours with a graceful leave (events, ticks, clock advances and forced compactions before and "
            "after it), shutdown, restart, and for half of them a further session appending after the leave line; both "
